@@ -329,6 +329,43 @@ def _task_eof_behind(args):
     return stats, vios[:20], sample
 
 
+def _task_settings(args):
+    """'a decoder with the same settings': clients constructed with network mapping (and with a manufacturer list) deliver what
+    a decoder constructed with those settings returns for the stream - claims, data before and after the claim, unclaimed sources"""
+    kind, = args
+    from .. import wire as _w
+    vios = []
+    stats = {"runs": 0, "streams": 0, "nontrivial": 0, "outcomes": set()}
+
+    def pkt(pgn, src, data, prio=2):
+        return clientkit.render_message(kind, prio, pgn, src, 255, data, False)[0]
+    hd = bytes.fromhex("10270000ff7ffd")
+    name9 = _w.iso_name(unique=77, mfr=1855).to_bytes(8, "little")
+    name3 = _w.iso_name(unique=78, mfr=229).to_bytes(8, "little")
+    packets = [pkt(127250, 9, bytes([1]) + hd), pkt(60928, 9, name9, 6), pkt(127250, 9, bytes([2]) + hd), pkt(127250, 10, bytes([3]) + hd),
+               pkt(60928, 3, name3, 6), pkt(127250, 3, bytes([4]) + hd)]
+    stream = b"".join(packets)
+    for kw in ({"build_network_map": True}, {"exclude_manufacturer_code": ["Garmin"]}, {"build_network_map": True, "include_manufacturer_code": ["furuno"]},
+               {"exclude_pgns": [127250]}, {"include_pgns": ["vesselHeading"]}):
+        ref = NMEA2000Decoder(**kw)
+        exp = [common.msg_view(m) for m in (clientkit.decode_one(ref, kind, p) for p in packets) if m is not None]
+        for cuts in ((), tuple(range(7, len(stream), 7))):
+            sess = vloop.Session(kind=kind, script=[it_connect] + [vloop.it_feed(c, 0) for c in split(stream, cuts)], client_kw=dict(kw))
+            o = sess.run()
+            stats["runs"] += 1
+            stats["nontrivial"] += 1
+            got = [v for _, v in o.received]
+            stats["outcomes"].add(len(got))
+            if o.end_reason != "quiescent" or got != exp:
+                vios.append({"kind": "settings_not_honoured", "facts": {"client": kind, "settings": sorted(kw)}, "signature": f"settings:{kind}:{sorted(kw)}",
+                             "detail": f"[{kind} client constructed with {kw}] delivered {[(g[0], g[4]) for g in got]} (PGN, source), a decoder with these settings returns "
+                                       f"{[(e[0], e[4]) for e in exp]} ({o.end_reason})",
+                             "case": {"client": kind, "settings": {k: v for k, v in kw.items()}}})
+                break
+    stats["outcomes"] = len(stats["outcomes"])
+    return stats, vios, None
+
+
 def _task_swap(args):
     """the receive callback is registered only after connect() and replaced between two bursts (each at a quiescent
     point): every message goes, once and in order, to the callback registered when it arrived"""
@@ -412,6 +449,8 @@ def _task_swap(args):
 def _dispatch(t):
     if t[0] == "swap":
         return _task_swap(t[1:])
+    if t[0] == "settings":
+        return _task_settings(t[1:])
     if t[0] == "eofbehind":
         return _task_eof_behind(t[1:])
     if t[0] == "huge":
@@ -460,7 +499,7 @@ def plan(ctx):
 
 
 def run(ctx):
-    tasks = plan(ctx) + [("huge", "yd"), ("huge", "actisense")] + [("reconnect", k) for k in vloop.KINDS] + [("swap", k) for k in vloop.KINDS] + [("eofbehind", k) for k in vloop.KINDS]
+    tasks = plan(ctx) + [("huge", "yd"), ("huge", "actisense")] + [("reconnect", k) for k in vloop.KINDS] + [("swap", k) for k in vloop.KINDS] + [("eofbehind", k) for k in vloop.KINDS] + [("settings", k) for k in vloop.KINDS]
     results = common.pmap(_dispatch, tasks)
     vios, samples = [], []
     runs = streams = nontriv = outcomes = 0
@@ -491,6 +530,9 @@ def run(ctx):
 def replay(ctx, rep):
     c = rep["case"]
     kind = c["client"]
+    if "settings" in c:
+        st, v, _ = _task_settings((kind,))
+        return [x for x in v if x["case"]["settings"] == c["settings"]][:1]
     if c.get("eof_behind"):
         st, v, _ = _task_eof_behind((kind,))
         return [x for x in v if x["case"]["count"] == c["count"] and x["case"]["cuts"] == c["cuts"]][:1]
